@@ -9,9 +9,14 @@ META = dict(
     design_ref="DESIGN.md section 6 C04",
     technique="Coq: unbounded induction over the declaration (services x characteristics) for the handle mapping against "
               "the abstract assignment; tie: the compile-time tables of generated server<> instantiations are dumped "
-              "exhaustively and every handle is read through ATT",
+              "exhaustively, every handle is read through ATT, and every handle reported by a discovery response (Find "
+              "Information, Read By Type, Read By Group Type, Find By Type Value; full range, continuations, per service "
+              "ranges, two MTUs) is judged against the assignment (monitor clause reported_handle)",
     level_note="(a),(b),(c) proved for all wf configurations without include declarations; with include_service<> the "
-               "mapping is shifted (refuted, known finding); (d) refuted")
+               "mapping is shifted (refuted, known finding); (d) refuted; (e) 'handles reported in discovery responses "
+               "are the assigned handles of the attributes they describe' is MONITORED on the implementation and TIED "
+               "(clause reported_handle), checked on the model for corpus configurations by vm_compute, NOT proved "
+               "for all configurations (C04_reported_handles_full is a Definition)")
 
 
 class C04(AttBase):
@@ -24,10 +29,45 @@ class C04(AttBase):
     assumptions = ["wf cfg = the static_asserts of the headers + no 16 bit overflow of handles; the tie samples configurations",
                    "at most one descriptor<> per characteristic, explicit characteristic UUIDs (what the generator produces)"]
 
+    def discovery(self, cfg, info):
+        """the requests whose responses carry handles (clause reported_handle): Find Information, Read By Type,
+        Read By Group Type, Find By Type Value over the full range, from every (sampled) handle on and over the
+        range of every service, once with the default MTU and once with the server's maximum"""
+        le = AC.le16
+        real = info.real or [1]
+        step = max(1, len(real) // 16)
+        starts = sorted(set([1] + real[::step] + [real[-1]]))
+        svc_starts = [h for h, u in zip(info.handles, info.uuids) if u in ("2800", "2801") and h]
+        ranges = [(1, 0xffff)] + [(a, 0xffff) for a in svc_starts] + [(a, b - 1) for a, b in zip(svc_starts, svc_starts[1:] + [info.last + 1]) if b > a]
+        types = ["2803", "2800", "2801", "2802", "2902", "2901"] + sorted(set(u for u in info.char_uuids))
+        reqs = []
+        for a in starts:
+            reqs.append("04" + le(a) + "ffff")
+            reqs.append("04" + le(a) + le(min(a + 3, 0xffff)))
+            reqs.append("10" + le(a) + "ffff" + "0028")
+        for a, b in ranges:
+            reqs.append("10" + le(a) + le(b) + "0028")
+            for t in types:
+                reqs.append("08" + le(a) + le(b) + AC.uuid_le(t))
+            reqs.append("08" + le(a) + le(b) + AC.as128("2803"))
+            for u in info.svc_uuids:
+                reqs.append("06" + le(a) + le(b) + "0028" + AC.uuid_le(u))
+        seen, uniq = set(), []
+        for r in reqs:
+            if r not in seen:
+                seen.add(r)
+                uniq.append(r)
+        ops = []
+        for size in sorted(set([23, info.mtu])):
+            if size != 23:
+                ops.append("in 0 02%s %d" % (le(size), size))
+            ops += ["in 0 %s %d" % (r, size) for r in uniq]
+        return [self.case("discovery", cfg, ops[k:k + 500]) for k in range(0, len(ops), 500)]
+
     def cases_for(self, cfg, info):
         hi = max(info.last, max(info.handles + [0])) + 2
         reads = ["in 0 0a%s 23" % AC.le16(h) for h in range(1, hi + 1)]
-        return [self.case("dump", cfg, ["dump"]), self.case("reads", cfg, reads)]
+        return [self.case("dump", cfg, ["dump"]), self.case("reads", cfg, reads)] + self.discovery(cfg, info)
 
     def generate(self, ctx):
         cfgs = self.configurations(ctx)
